@@ -18,7 +18,7 @@ META = {
         "datagram. Responses encrypted by the reference engine under its current time must come back decrypted "
         "with the parameters found in the message. Traced job: the authentication plug-in is replaced by a constant "
         "digest so that the symbolic SET payload stays symbolic through apply_encryption and the plug-in's XOR."),
-    "bounds": ["operations get, getnext, bulkget, set, multiset, walk (2 requests)", "context names of length 0, 1, 32, 127, 128", "MD5 and SHA-1 localisation", "two users sharing privacy password and engine but not the authentication hash, in both orders",
+    "bounds": ["operations get, getnext, bulkget, set, multiset, walk (2 requests)", "context names of length 0, 1, 32, 127, 128", "MD5 and SHA-1 localisation", "two users sharing privacy password and engine but not the authentication hash, in both orders", "one client switching (configure / reconfigure) between two privacy users and back",
                "SET payload: OCTET STRING of 0..4 symbolic octets (traced) / table values (window)", "engine clock advancing between discovery and response"],
     "outside": ["real DES/AES plug-ins (not installed)", "plug-ins whose decrypt does not invert encrypt"],
     "stubs": ["privacy plug-in = harness stream cipher (recording)", "sender = trampoline", "get_request_id pinned", "traced job only: usm.auth.create -> constant digest"],
@@ -215,6 +215,55 @@ def make_two_users():
     return h
 
 
+def make_switch_user():
+    """One client: a request as user 1, then configure / reconfigure to another privacy user (other passwords), a request, and back."""
+    def h(order, op_sel, how):
+        problem = None
+        with window():
+            kinds = ["md5priv", "sha1priv"] if choose(order, 0, 1) == 0 else ["sha1priv", "md5priv"]
+            op = OPS[choose(op_sel, 0, len(OPS) - 1)]
+            temporary = choose(how, 0, 1)
+            world = C.World(kinds[0], Database(UNIVERSE))
+            try:
+                try:
+                    def phase(kind):
+                        before = len(world.exchanges)
+                        run_op(world, op, SECRETS[0])
+                        for idx in range(before, len(world.exchanges)):
+                            if ber.dec_v3_msg(world.exchanges[idx][0]).usm.engine_id == b"":
+                                continue   # a discovery probe
+                            p = check_exchange(world, idx, kind, b"")
+                            if p:
+                                return p
+                        return None
+                    run_op(world, "get", SECRETS[0])
+                    disco = ber.dec_v3_msg(world.exchanges[0][1])
+                    world.discovered = (disco.usm.boots, disco.usm.time)
+                    problem = phase(kinds[0])
+                    if problem is None:
+                        if temporary:
+                            with world.client.reconfigure(credentials=C.credentials_for(kinds[1])):
+                                problem = phase(kinds[1])
+                        else:
+                            world.client.configure(credentials=C.credentials_for(kinds[1]))
+                            problem = phase(kinds[1])
+                            world.client.configure(credentials=C.credentials_for(kinds[0]))
+                    if problem is None:
+                        problem = phase(kinds[0])
+                except Exception as exc:  # noqa: BLE001
+                    fid = world.known_exception(exc)
+                    if not (fid and known(fid)):
+                        problem = "%s: %s" % (type(exc).__name__, exc)
+            finally:
+                world.close()
+        reached()
+        if problem:
+            h.last_problem = problem
+            return False
+        return True
+    return h
+
+
 def make_traced(nbytes):
     """Mode T: the SET payload octets stay symbolic through apply_encryption and the plug-in's XOR."""
     from props.c05 import capture_request
@@ -274,6 +323,8 @@ def jobs(tier):
                        timeout=500, mode="E/concolic-window", functions=pf, sample_every=3))
     out.append(Job("two-users-shared-privacy-password", make_two_users(), [Arg("order", 0, 1), Arg("op", 0, len(OPS) - 1)], timeout=500,
                    mode="E/concolic-window", functions=pf))
+    out.append(Job("one-client-switching-privacy-users", make_switch_user(), [Arg("order", 0, 1), Arg("op", 0, len(OPS) - 1), Arg("how", 0, 1)],
+                   timeout=500, mode="E/concolic-window", functions=pf))
     for n in ((0, 2) if quick else (0, 1, 2, 4)):
         out.append(Job(f"traced-set-payload-{n}", make_traced(n), [Arg(f"o{i}", 0, 255 if i < n else 0) for i in range(4)],
                        timeout=600 if quick else 1500, mode="T", functions=pf))
